@@ -41,6 +41,13 @@ def drive(sc):
         "nonlinear_constraints": {"lower_bounds": lb, "upper_bounds": ub},
     }
 
+    if (v[0] + v[1] + int(sc["tf"])) % 2 == 0:
+        # sections the caller validated beforehand as objects of their own (instead of dictionaries)
+        from ropt.config.enopt import LinearConstraintsConfig, NonlinearConstraintsConfig, VariablesConfig
+        for key, cls in (("variables", VariablesConfig), ("linear_constraints", LinearConstraintsConfig),
+                         ("nonlinear_constraints", NonlinearConstraintsConfig)):
+            cfg[key] = cls.model_validate(cfg[key])
+
     def evaluator(variables, context):
         return EvaluatorResult(objectives=variables[:, :1].copy(),
                                constraints=np.stack([variables[:, 0] + 1.0, 2.0 * variables[:, 1]], axis=1))
